@@ -211,7 +211,8 @@ func workC12(c *shardCtx) {
 		wf = 4
 	}
 	exprs := scenarioExprsW(c.thorough(), wf)
-	curated := 77 // the hand-written head of the list (literals in the AST, reordering functions)
+	curated := 77 // (the constant-operand expressions that follow them are explored like generated ones)
+	// the hand-written head of the list (literals in the AST, reordering functions)
 	nThreads := 2
 	maxPre := 0
 	defer func() { c.res.Notes["max_preemptions_in_a_schedule"] = maxPre }()
@@ -223,6 +224,7 @@ func workC12(c *shardCtx) {
 			continue
 		}
 		c.add("expressions", 1)
+		c.journal("C12 expression " + text)
 		dfs := ei < curated || (ei/c.shards)%8 == 0 || (c.thorough() && (ei/c.shards)%2 == 0)
 		bound := 1
 		if c.thorough() && ei < curated {
